@@ -122,6 +122,9 @@ func post(c *ev.Check, outs []*run.Outcome) {
 		c.Require("achieved."+k, 1)
 	}
 	c.Require("sigcut.recovered", 1)
+	if n := c.Counter("cases_abandoned_by_watchdog"); n > 2 {
+		c.Inconc(fmt.Sprintf("%d crash cases were abandoned by their wall-clock watchdog", n))
+	}
 	if n := c.Counter("victim.abandoned_rotation_wait"); n > 3 {
 		c.Inconc(fmt.Sprintf("%d cases were abandoned because the victim's rotation job did not come round", n))
 	}
@@ -1008,7 +1011,10 @@ func (d *driver) runCase(cs caseSpec) (co caseOut) {
 	watchdog := func(what string) {
 		kill()
 		r.Count("watchdog."+what, 1)
-		r.Inconc(fmt.Sprintf("wall-clock watchdog: %s (case mode=%s op=%d)", what, cs.Mode, cs.OpI))
+		// one case abandoned by its wall-clock watchdog decides nothing about the other cases; the
+		// run as a whole is inconclusive only if it happens more than twice (post) or a floor is missed
+		r.Count("cases_abandoned_by_watchdog", 1)
+		r.Note("wall-clock watchdog: %s (case mode=%s op=%d): case abandoned", what, cs.Mode, cs.OpI)
 	}
 	attachFailed := false
 	goAt, doneAt := time.Time{}, time.Time{}
